@@ -505,7 +505,12 @@ pub fn meta(cx: &mut Ctx) {
             let mut dst = [0u8; 16];
             let (r, _rd, wr) = encoder.encode_from_utf8_without_replacement(s, &mut dst, true);
             match r {
-                EncoderResult::Unmappable(_) => fact_everything = false,
+                EncoderResult::Unmappable(_) => {
+                    fact_everything = false;
+                    if cp < 0x80 {
+                        fact_ascii = false;
+                    }
+                }
                 _ => {
                     if wr != 1 && oe == *e {
                         fact_single = false;
@@ -524,9 +529,11 @@ pub fn meta(cx: &mut Ctx) {
         let h = cx.sh.begin();
         let mut s = String::new();
         let label = Encoding::for_label(name.as_bytes()).map(|x| x.name()).unwrap_or("");
+        // which encoding encode() reports: non-ASCII text, ASCII-only text (borrow path), empty text
+        let enc_used: Vec<&str> = ["a\u{e9}\u{3042}", "abc", ""].iter().map(|t| e.encode(t).1.name()).collect();
         let _ = write!(
             s,
-            "{{\"ev\":\"MD\",\"h\":{},\"name\":\"{}\",\"index\":{},\"ascii\":{},\"single\":{},\"everything\":{},\"output\":\"{}\",\"outout\":\"{}\",\"encoder\":\"{}\",\"label\":\"{}\",\"factSingle\":{},\"factAscii\":{},\"factEverything\":{},\"eq\":[",
+            "{{\"ev\":\"MD\",\"h\":{},\"name\":\"{}\",\"index\":{},\"ascii\":{},\"single\":{},\"everything\":{},\"output\":\"{}\",\"outout\":\"{}\",\"encoder\":\"{}\",\"label\":\"{}\",\"encodeUsed\":[\"{}\",\"{}\",\"{}\"],\"factSingle\":{},\"factAscii\":{},\"factEverything\":{},\"eq\":[",
             h,
             name,
             i + 1,
@@ -537,6 +544,9 @@ pub fn meta(cx: &mut Ctx) {
             oe.output_encoding().name(),
             e.new_encoder().encoding().name(),
             label,
+            enc_used[0],
+            enc_used[1],
+            enc_used[2],
             fact_single,
             fact_ascii,
             fact_everything
